@@ -34,6 +34,11 @@ Section Replica.
     unfold read_next, install, read_start. cbn.
     destruct (Nat.eqb_spec (r_gen S r) (Datatypes.S (r_gen S r))) as [E|E]; [lia|reflexivity].
   Qed.
+  (* an interrupted save never passes for a snapshot; an uninterrupted one is the pinned state *)
+  Lemma save_interrupted f (pinned : S) stopped failed : stopped || failed = true -> save_to S f pinned stopped failed = SaveError S.
+  Proof. unfold save_to. now intros ->. Qed.
+  Lemma save_complete f (pinned : S) str : save_to S f pinned false false = SaveDone S str -> str = save S f pinned.
+  Proof. unfold save_to. cbn. now intros [= <-]. Qed.
   (* a lazy sequence never fails: it delivers the content of the replica at the time it is consumed - the new content
      when an install happened between handing it out and consuming it *)
   Lemma lazy_consume_current (r : rep S) : lazy_consume S r = Some (r_store S r).
